@@ -21,6 +21,8 @@ def make_wl(rng, k):
     opts["annotated"] = True
     spec["paralogs"] = rng.choice([1, 2])
     spec["jitter"] = rng.choice([1, 3, 8])
+    spec["deep_gene"] = 1 if (k is not None and k % 4 == 0) or rng.random() < 0.25 else 0
+    spec["truncate"] = 1 if spec["deep_gene"] else spec.get("truncate", 1)
     return spec, opts
 
 
